@@ -41,6 +41,7 @@ class PoolRunner:
         self.lib = core.load_library()
         self.m = PoolModel()
         self.handles = []
+        self.shared_args = {}
         self.stats = {'ops': {}, 'raised': 0, 'reserved_ok': 0, 'reserved_none': 0, 'reach': {}, 'n_ops': 0}
         self.i = 0
 
@@ -129,7 +130,12 @@ class PoolRunner:
                             self.bump(self.stats['reach'], 'negative_add_unknown')
                 elif kind == 'reserve':
                     req = op[1]
+                    how = op[2] if len(op) > 2 else None
                     arg = dict(req)
+                    if how == 'reuse':
+                        # the caller keeps one dict per kind of job and hands the very same object over every time
+                        arg = self.shared_args.setdefault(tuple(sorted(req.items())), arg)
+                        self.bump(self.stats['reach'], 'request_object_reused')
                     neg = any(a < 0 for a in req.values())
                     try:
                         h = rm.reserve_resources(arg)
@@ -163,6 +169,12 @@ class PoolRunner:
                             self.stats['reserved_none'] += 1
                             if len(req) > 1 and any(m.fits({n: a}) for n, a in req.items() if a > 0):
                                 self.bump(self.stats['reach'], 'multi_partial_fit_refused')
+                        if how == 'scribble':
+                            # the caller goes on using its dict for something else: what was reserved must not follow
+                            for n in list(arg):
+                                arg[n] = 77
+                            arg['zz'] = 1
+                            self.bump(self.stats['reach'], 'request_object_overwritten')
                 elif kind == 'release':
                     _, hi, res = op
                     if hi >= len(self.handles):
@@ -319,7 +331,7 @@ def _gen_c09(rng):
             ops.append(['add', rng.choice(NAMES + (UNKNOWN,) if rng.random() < 0.2 else NAMES),
                         rng.choice((0, 1, 2, 3, -1, -1, -2, -5, 0.5, -0.5))])
         elif x < 0.55:
-            ops.append(['reserve', gen_req(rng)])
+            ops.append(['reserve', gen_req(rng)] + rng.choice(([], [], [], ['reuse'], ['reuse'], ['scribble'])))
         elif x < 0.85:
             hi = rng.randrange(4)
             if rng.random() < 0.4:
@@ -378,7 +390,7 @@ def shrink_c09(case):
         if op[0] in ('reserve',) and len(op[1]) > 1:
             for k in op[1]:
                 c = dict(case)
-                o2 = ['reserve', {a: b for a, b in op[1].items() if a != k}]
+                o2 = ['reserve', {a: b for a, b in op[1].items() if a != k}] + list(op[2:])
                 c['ops'] = ops[:i] + [o2] + ops[i + 1:]
                 yield c
         if op[0] == 'release' and op[2] and len(op[2]) > 1:
